@@ -20,7 +20,7 @@ func runC19(r *Run) {
 	r.rule("C19.R3", "revert containment in ApplyTransaction", 6)
 	r.rule("C19.R4", "refund of unused gas: always, at the effective price, fee collector -> sender", 6)
 	r.rule("C19.R5", "gas used = max(minimum, raw - refund), fixed afterwards", 5)
-	r.rule("C19.R6", "fee deduction in the ante handler and block gas limit", 6)
+	r.rule("C19.R6", "fee deduction in the ante handler and block gas limit", 7)
 	r.rule("C19.R7", "tx-hash context value precedes EVM construction", 1)
 
 	// ---------------------------------------------------------------- R1
@@ -105,6 +105,15 @@ func runC19(r *Run) {
 				if len(c.Args) == 1 {
 					if b, ok := stripParens(c.Args[0]).(*ast.BinaryExpr); ok && b.Op == token.ADD && exprString(b.Y) == "1" && isSeq(b.X) {
 						okSet = true
+					}
+				}
+			}
+			// ... for every message: nothing skips the increment (a `continue` for some kind of message leaves
+			// the nonce unchanged when the execution fails, and the signed tx can be replayed)
+			for _, c := range v.Calls(loop.Body, byName("SetSequence")) {
+				for _, f := range v.factsAt(c, false) {
+					if ifs, isIf := f.At.(*ast.IfStmt); isIf && ifs.Pos() > loop.Pos() && v.blockEndKind(ifs.Body) != "return" {
+						okSet = false
 					}
 				}
 			}
@@ -450,6 +459,23 @@ func runC19(r *Run) {
 			return o != nil && o.Callee.Name() == "IsReCheckTx" && !o.Success
 		})
 		r.check(okLimit, "C19.R6", "limit|block-gas", v.pos(v.Decl), "a tx whose gas exceeds the block gas limit is rejected", "the decorator does not reject gasWanted > BlockGasLimit(ctx)")
+	}
+	if v := w.View("app/ante/evm", "EthMinGasPriceDecorator.AnteHandle"); v == nil {
+		r.bad("C19.R6", "anchor|mingasprice", "-", "anchor", "not found")
+	} else {
+		r.saw(v.ID())
+		okMin := v.rejectsWhen(v.Decl.Body, func(f Fact) bool {
+			c, ok := factCmp(f)
+			return ok && c.Op == "<" && strings.Contains(strings.ToLower(exprString(c.L)), "fee") && strings.Contains(strings.ToLower(exprString(c.R)), "requiredfee")
+		}, func(f Fact) bool {
+			// the only way past the check: the minimum gas price parameter is zero
+			if c, ok := stripParens(f.Atom).(*ast.CallExpr); ok && !f.Truth {
+				_, nm, _, isM := methodCall(c)
+				return isM && nm == "IsZero" && strings.Contains(strings.ToLower(exprString(c)), "mingasprice")
+			}
+			return false
+		})
+		r.check(okMin, "C19.R6", "mingasprice|every-mode", v.pos(v.Decl), "a tx priced below the global minimum gas price is rejected in every execution mode (block inclusion too)", "EthMinGasPriceDecorator does not reject fee < minGasPrice x gasLimit unconditionally (apart from a zero minimum): a proposer can include under-priced transactions")
 	}
 	if v := w.View("x/evm/keeper", "VerifyFee"); v == nil {
 		r.bad("C19.R6", "anchor|VerifyFee", "-", "anchor", "not found")
